@@ -130,9 +130,36 @@ def mc_codec(ctx, k, part="both"):
         mut = [n for n in names if n not in MC_HUGE]
         pair, kk = mut, 4
     c = dict(k)
-    c.update({"Names": vf.tla_set(mut), "PairNames": vf.tla_set(pair), "K": str(kk)})
+    full = [n for n in names if n not in MC_HUGE] if ctx.quick else names
+    c.update({"Names": vf.tla_set(mut), "PairNames": vf.tla_set(pair), "FullNames": vf.tla_set(full), "K": str(kk)})
     cfg = vf.cfg_text(constants=c, spec="Spec", invariants=["InvRoundTrip", "InvPrefixFree", "InvStrict", "InvRejected", "InvPadBits", "InvValid"])
     return vf.mc(ctx, "MC_Codec", cfg, workers=4 if ctx.quick else 8, timeout=1500, heap="4g" if ctx.quick else "8g", coverage=False)
+
+
+class Background:
+    """Run f(*a) in a thread (TLC model check next to the Go build); join() re-raises what it raised."""
+    def __init__(self, f, *a, **kw):
+        import threading
+        self.exc, self.res = None, None
+
+        def body():
+            try:
+                self.res = f(*a, **kw)
+            except BaseException as e:      # noqa
+                self.exc = e
+        self.t = threading.Thread(target=body, daemon=True)
+        self.t.start()
+
+    def join(self):
+        self.t.join()
+        if self.exc is not None:
+            raise self.exc
+        return self.res
+
+
+def static_consts():
+    """Chain-spec sizes for the design model check (it does not depend on the code under test): the tiny defaults."""
+    return {"V": "6", "C": "2", "E": "12", "SM": "5", "ABB": "1", "Q": "80", "O": "8", "H": "8", "L": "24"}
 
 
 def gen_cases(ctx, binp, k, names, classes, tag, kk=None, big_limit=None, groups=None, sample_n=None, med_limit=None):
